@@ -2797,7 +2797,12 @@ impl Translator {
                             self.emit(st, Instr::DeconstructVariant);
                             // pop tag
                             self.emit(st, Instr::Pop);
-                            self.handle_pat_binding(inner, locals, st, mono, or_pat_decisions);
+                            if self.get_ty(mono, inner.node()).unwrap() == SolvedType::Void {
+                                // a void payload is a dummy value that binds nothing
+                                self.emit(st, Instr::Pop);
+                            } else {
+                                self.handle_pat_binding(inner, locals, st, mono, or_pat_decisions);
+                            }
                         } else {
                             void_case();
                         }
